@@ -210,9 +210,10 @@ func (d *kvTraceDriver) committedNodes() []int {
 }
 
 type kvTrace struct {
-	seed   int64
-	events []map[string]interface{}
-	script []string
+	restarts bool
+	seed     int64
+	events   []map[string]interface{}
+	script   []string
 }
 
 func eventsBytes(evs []map[string]interface{}) []byte {
@@ -253,8 +254,10 @@ func runKVTraces(c *Ctx, run *ev.Run, nTraces, ops, maxNodes int, restarts bool,
 		for t := ci * perNode; t < (ci+1)*perNode && t < nTraces; t++ {
 			seed := c.Seed*100000 + int64(t)
 			d := &kvTraceDriver{n: n, rng: rand.New(rand.NewSource(seed))}
-			d.run(ops, maxNodes, restarts)
-			traces[t] = kvTrace{seed: seed, events: d.events, script: d.script}
+			// every second chunk of traces has process restarts (clean / SIGKILL) sprinkled in, in both tiers
+			rs := restarts || ci%2 == 1
+			d.run(ops, maxNodes, rs)
+			traces[t] = kvTrace{restarts: rs, seed: seed, events: d.events, script: d.script}
 		}
 	})
 	var all []map[string]interface{}
@@ -280,10 +283,10 @@ func runKVTraces(c *Ctx, run *ev.Run, nTraces, ops, maxNodes int, restarts bool,
 			// reproduce: the same seed on a fresh node must be rejected at the same event
 			n := c.StartNode(node.Config{})
 			d := &kvTraceDriver{n: n, rng: rand.New(rand.NewSource(t.seed))}
-			d.run(ops, maxNodes, false)
+			d.run(ops, maxNodes, t.restarts)
 			c.DropNode(n)
 			k2, ok2, _ := validateKVTrace(c, d.events, allowDev)
-			if ok2 || (!restarts && k2 != k) {
+			if ok2 || (!t.restarts && k2 != k) {
 				infra("trace %d rejected at event %d but its re-execution is accepted/rejected elsewhere (%d): not reproduced", i, k, k2)
 			}
 			lo := k - 8
